@@ -122,6 +122,23 @@ def complement_lemma(eng, A, B, n):
                                  CNT(A, n) + CNT(B, n) == n))
 
 
+def filter_ext(eng, A, B, n):
+    """Extensionality of the filter primitives (lemma library: equal masks have equal counts; the j-th true position and the rank of
+    a position are determined by the mask): masks that agree on [0, n) have the same CNT, IDX and RNK."""
+    key = ("filter-ext", A.get_id(), B.get_id(), n.get_id())
+    if key in eng._axiom_keys or A.eq(B):
+        return
+    eng._axiom_keys.add(key)
+    k = z3.Int(fresh_name("k!fe"))
+    j = z3.Int(fresh_name("j!fe"))
+    same = z3.ForAll([k], z3.Implies(z3.And(0 <= k, k < n), z3.Select(A, k) == z3.Select(B, k)))
+    eng.axioms.append(z3.Implies(same, z3.And(CNT(A, n) == CNT(B, n),
+                                              z3.ForAll([j], IDX(A, n, j) == IDX(B, n, j), patterns=[IDX(A, n, j)]),
+                                              z3.ForAll([j], IDX(A, n, j) == IDX(B, n, j), patterns=[IDX(B, n, j)]),
+                                              z3.ForAll([j], RNK(A, n, j) == RNK(B, n, j), patterns=[RNK(A, n, j)]),
+                                              z3.ForAll([j], RNK(A, n, j) == RNK(B, n, j), patterns=[RNK(B, n, j)]))))
+
+
 def mask_array(eng, st, maskfn, extra_triggers=True):
     k = z3.Int("k!m")
     return named_array(eng, z3.Lambda([k], maskfn(k)), "M", extra_triggers=extra_triggers)
@@ -952,6 +969,57 @@ def m_lstrip(eng, st, recv, args, kwargs, node):
     raise Unsupported("lstrip on %r" % (recv,))
 
 
+STRLOWER = z3.Function("str.lower", Label, Label)
+ISFLOAT = z3.Function("str.isfloat", Label, z3.BoolSort())            # generator.is_float(s): float(eval(s)) succeeds
+STRTAIL = z3.Function("str.tail", Label, z3.IntSort(), Label)         # s[k:]
+
+
+def m_lower(eng, st, recv, args, kwargs, node):
+    if isinstance(recv, VStr):
+        return VStr(recv.s.lower())
+    if isinstance(recv, VLabel):
+        # lower() is idempotent and fixes every all-lower-case literal the engine knows
+        key = ("lower-axioms",)
+        if key not in eng._axiom_keys:
+            eng._axiom_keys.add(key)
+            a = z3.Const("a!lw", Label)
+            eng.axioms.append(z3.ForAll([a], STRLOWER(STRLOWER(a)) == STRLOWER(a), patterns=[STRLOWER(STRLOWER(a))]))
+        for lit, c in list(Engine_labels().items()):
+            k2 = ("lower-lit", lit)
+            if k2 not in eng._axiom_keys:
+                eng._axiom_keys.add(k2)
+                eng.axioms.append(STRLOWER(c) == eng.label_of(lit.lower()))
+        return VLabel(STRLOWER(recv.t))
+    raise Unsupported("lower on %r" % (recv,))
+
+
+def m_startswith(eng, st, recv, args, kwargs, node):
+    if isinstance(recv, VStr) and isinstance(args[0], VStr):
+        return VBool(recv.s.startswith(args[0].s))
+    if isinstance(recv, VLabel) and isinstance(args[0], VStr):
+        f = z3.Function("str.startswith:" + args[0].s, Label, z3.BoolSort())
+        for lit, c in list(Engine_labels().items()):
+            k2 = ("startswith-lit", args[0].s, lit)
+            if k2 not in eng._axiom_keys:
+                eng._axiom_keys.add(k2)
+                eng.axioms.append(f(c) == lit.startswith(args[0].s))
+        return VBool(f(recv.t))
+    raise Unsupported("startswith on %r" % (recv,))
+
+
+def m_is_float(eng, st, args, kwargs, node):
+    v = args[0]
+    if isinstance(v, VStr):
+        try:
+            float(eval(v.s, {}))
+            return VBool(True)
+        except Exception:
+            return VBool(False)
+    if isinstance(v, VLabel):
+        return VBool(ISFLOAT(v.t))
+    raise Unsupported("is_float(%r)" % (v,))
+
+
 def m_replace(eng, st, recv, args, kwargs, node):
     """s.replace(a, b) on an abstract string: an abstract string determined by the three arguments"""
     if isinstance(recv, VStr) and all(isinstance(a, VStr) for a in args):
@@ -1061,7 +1129,11 @@ def m_subscript2d(eng, st, base, sl, node):
         jj = j if (z3.is_int_value(j) and j.as_long() >= 0) else z3.If(j < 0, j + o.cols, j)
         return st.alloc(HSeq(o.rows, lambda r: g(r, jj), numpy=True, etype=o.etype))
     if isinstance(a, ast.Slice):
-        raise Unsupported("row slice of a 2-D array (line %d)" % node.lineno)
+        if not isinstance(b, ast.Slice):
+            raise Unsupported("row slice with a column index (line %d)" % node.lineno)
+        rlo, rhi = eng.slice_bounds(o.rows, a, st)
+        clo, chi = eng.slice_bounds(o.cols, b, st)
+        return st.alloc(H2D(z3.If(rhi > rlo, rhi - rlo, 0), z3.If(chi > clo, chi - clo, 0), lambda r, c: g(r + rlo, c + clo), etype=o.etype))
     ia = eng.ev(a, st)
     if eng.is_seq(ia, st):
         io = st.heap[ia.addr]
@@ -1101,6 +1173,23 @@ def m_store2d(eng, st, base, sl, v, node):
     if isinstance(o, HSeq):
         raise Unsupported("2-D store into a 1-D sequence (line %d)" % node.lineno)
     if not (isinstance(sl, ast.Tuple) and len(sl.elts) == 2):
+        idx = eng.ev(sl, st)
+        if isinstance(idx, VConc) and idx.name == "triu_indices":
+            # a[np.triu_indices(n)] = v: the upper triangle in row-major order, (r, c) at position TRIST(n, r) + c - r  (A-ext)
+            from .lemmas import TRIST, trist_axioms
+            n = idx.obj[0]
+            vo = seq_of(eng, st, v, node)
+            eng.oblige(st, "a[np.triu_indices(n)] = v: a is n x n", z3.And(o.rows == n, o.cols == n), "safety", node)
+            eng.oblige(st, "a[np.triu_indices(n)] = v: v has n (n + 1) / 2 entries", 2 * vo.len == n * (n + 1), "safety", node)
+            key = ("trist", n.get_id())
+            if key not in eng._axiom_keys:
+                eng._axiom_keys.add(key)
+                eng.axioms.extend(trist_axioms(n))
+            g, vg = o.get, vo.get
+            isf = isinstance(g(z3.IntVal(0), z3.IntVal(0)), VFloat)
+            st.heap[base.addr] = H2D(o.rows, o.cols, lambda r, c: ite(z3.And(0 <= r, r <= c, c < n), as_float(vg(TRIST(n, r) + c - r)) if isf else vg(TRIST(n, r) + c - r), g(r, c)),
+                                     etype=o.etype)
+            return None
         raise Unsupported("store a[i] = ... on a 2-D array")
     a, b = sl.elts
     g = o.get
@@ -1332,6 +1421,7 @@ def install(eng):
     M["store2d"] = m_store2d
     M["np.ones"] = m_np_ones
     M["np.empty"] = m_np_empty
+    M["np.triu_indices"] = lambda eng, st, args, kwargs, node: VConc("triu_indices", (eng.as_int(args[0]),))
     M["np.copy"] = m_np_copy
     M["np.pad"] = m_np_pad
     M["np.log"] = unary_float(flog)
@@ -1360,7 +1450,10 @@ def install(eng):
     M["pprint.PrettyPrinter"] = m_prettyprinter
     eng.methods["pprint"] = m_pprint
     eng.methods.update({"append": m_append, "copy": m_copy, "cumsum": m_cumsum, "astype": m_astype,
-                        "keys": m_dict_keys, "readlines": m_readlines, "lstrip": m_lstrip, "isdigit": m_isdigit, "replace": m_replace})
+                        "keys": m_dict_keys, "readlines": m_readlines, "lstrip": m_lstrip, "isdigit": m_isdigit, "replace": m_replace,
+                        "lower": m_lower, "startswith": m_startswith})
+    M["generator.is_float"] = m_is_float
+    M["is_float"] = m_is_float
     eng.module_consts.update({
         "np.nan": VFloat(0, nan=True), "np.inf": VFloat(0, inf=True, pos=True),
         "np.pi": VFloat(z3.Real("pi")), "np.intp": VConc("np.intp"),
